@@ -89,3 +89,37 @@ Section Wf2.
     is_some (root_type sch (op_kind o)) && pos_okb srcs (op_src o) (op_line o) && sels_okb2 (op_src o) (op_sel o)
     && forallb (fun v => ty_okb sch (vd_type v) && pos_okb srcs (op_src o) (vd_line v)) (op_vars o).
 End Wf2.
+
+(* ---- the hypotheses of the converter's TERMINATION theorem (Proofs/ConvertFuel.v), as
+   executable checks: named fragments do not spread each other in a cycle (gqlparser's
+   NoFragmentCycles), and the possible types of every type are object types ---- *)
+From Coq Require Import Arith.
+(* the fragments a selection spreads, directly or inside its fields and inline fragments *)
+Fixpoint sel_spreads (s : sel) : list str :=
+  match s with
+  | SField _ _ _ _ _ sub _ => flat_map sel_spreads sub
+  | SInline _ _ sub _ => flat_map sel_spreads sub
+  | SSpread n _ _ => [n]
+  end.
+Definition sels_spreads (l : list sel) : list str := flat_map sel_spreads l.
+
+
+(* candidate ranks by [length frags] rounds of relaxation, then checked *)
+Definition frank_of (ranks : list (str * nat)) (n : str) : nat :=
+  match assoc n ranks with Some r => r | None => 0%nat end.
+Definition frank_okb (frags : list fragment) (ranks : list (str * nat)) : bool :=
+  forallb (fun f0 => match find_fragment frags (fr_name f0) with
+                     | Some fr => forallb (fun g => Nat.ltb (frank_of ranks g) (frank_of ranks (fr_name f0)))
+                                          (sels_spreads (fr_sel fr))
+                     | None => true
+                     end) frags.
+Definition frank_step (frags : list fragment) (ranks : list (str * nat)) : list (str * nat) :=
+  map (fun fr => (fr_name fr, fold_right (fun g a => Nat.max (S (frank_of ranks g)) a) 0%nat (sels_spreads (fr_sel fr)))) frags.
+Fixpoint frank_iter (frags : list fragment) (k : nat) (ranks : list (str * nat)) : list (str * nat) :=
+  match k with O => ranks | S k' => frank_iter frags k' (frank_step frags ranks) end.
+Definition frags_acyclicb (frags : list fragment) : bool :=
+  frank_okb frags (frank_iter frags (length frags) []).
+
+
+Definition impls_objectsb (sch : schema) : bool :=
+  forallb (fun d => forallb (fun i => kind_eqb (td_kind i) KObject) (possible_types sch d)) sch.
